@@ -534,6 +534,7 @@ type veTraffic struct {
 	Cuts     []int      // capture i holds Packets[Cuts[i]:Cuts[i+1]]
 	Written  map[int]string
 	Imported map[int]bool
+	Fat      bool // one flow carries more data than a pipe holds
 }
 
 func (tr *veTraffic) captures() int { return len(tr.Cuts) - 1 }
@@ -541,7 +542,11 @@ func (tr *veTraffic) captures() int { return len(tr.Cuts) - 1 }
 func (tr *veTraffic) brief() map[string]any {
 	pk := []string{}
 	for _, p := range tr.Packets {
-		pk = append(pk, fmt.Sprintf("f%d/%d+%s:%q", p.Flow, p.Dir, p.Off, p.Payload))
+		pl := p.Payload
+		if len(pl) > 24 {
+			pl = fmt.Sprintf("%s..(%d bytes)..%s", pl[:4], len(pl), pl[len(pl)-3:])
+		}
+		pk = append(pk, fmt.Sprintf("f%d/%d+%s:%q", p.Flow, p.Dir, p.Off, pl))
 	}
 	fl := []string{}
 	for _, f := range tr.Flows {
@@ -632,10 +637,11 @@ func veVisible(readers []*index.Reader) (map[uint64]*index.Stream, error) {
 	return out, nil
 }
 
-// veConvFails: harness/convbin answers a stream with "x5" in its payload with a line that is no chunk.
+// veConvFails: harness/convbin answers a stream with "x5" in its payload with a line that is no chunk and
+// dies when it reads a chunk with "x7" in it.
 func veConvFails(data []index.Data) bool {
 	for _, d := range data {
-		if bytes.Contains(d.Content, []byte("x5")) {
+		if bytes.Contains(d.Content, []byte("x5")) || bytes.Contains(d.Content, []byte("x7")) {
 			return true
 		}
 	}
